@@ -224,8 +224,14 @@ func (w *World) checkWithdrawalSequences(t *rapid.T, wi int, m *mwallet, exp []d
 		return
 	}
 	a, _ := massutil.NewAmountFromInt(value)
+	// a lock time on the transaction must not change what the deposit input carries
+	lockTime := uint64(0)
+	if rapid.IntRange(0, 2).Draw(t, "withLockTime") == 0 {
+		lockTime = rapid.Uint64Range(1, tip+5).Draw(t, "lockTime")
+		w.flag("withdrawal-draft-with-lock-time")
+	}
 	hexTx, _, err := w.env.W.CreateRawTransaction([]*masswallet.TxIn{{TxId: d.Op.Hash.String(), Vout: d.Op.Index}},
-		map[string]massutil.Amount{dest.EncodeAddress(): a}, 0, m.issued[0].Std, nil)
+		map[string]massutil.Amount{dest.EncodeAddress(): a}, lockTime, m.issued[0].Std, nil)
 	if err != nil {
 		w.logf("withdrawal draft of %v refused: %v", d.Op, err)
 		return
